@@ -43,6 +43,9 @@ TRUSTED = ["harness/cluster.py in-memory API double", "harness/wf_model.py scena
 # oracle: the property text on one observed run, independent of the Coq model
 # --------------------------------------------------------------------------------------------
 
+ERR = ("Retry", "PermFail")
+
+
 def same(a, b) -> bool:
     """type-aware deep equality (True != 1)"""
     return json.dumps(a, sort_keys=True) == json.dumps(b, sort_keys=True)
@@ -58,6 +61,8 @@ def check_level(sc, o, steps, parent, outs_list, prefix, fails):
     if len(set(labels)) != len(labels):
         return
     outs = {l: out for l, out, _ in outs_list}
+    sim = m.simulate(sc, steps, parent)
+    truth = {} if sim.get("not_ready") else sim["outcomes"]
     trace = [t for t in o["trace"] if _head(t["path"], prefix)]
     calls = [c for c in o["calls"] if _head(c["path"], prefix)]
 
@@ -72,13 +77,28 @@ def check_level(sc, o, steps, parent, outs_list, prefix, fails):
         direct = [t for t in mine if len(t["path"]) == len(prefix) + 1]
         my_calls = [c for c in calls if c["path"][len(prefix)][0] == l]
         refs = sorted(m.step_refs(s))
-        not_ok = [r for r in refs if r not in outs or outs[r]["cls"] != "Ok"]
+        # GROUND TRUTH (not the reported outcome): the class the generator forced on this step — the class its
+        # function returns on these inputs / error iff an item is Retry or PermFail / the combination of a
+        # sub-workflow's inner steps — computed by the plain-Python reference run of the scenario.
+        if l in truth:
+            want_cls, got_cls = truth[l][0], outs[l]["cls"]
+            if want_cls != got_cls and not (want_cls in ERR and got_cls in ERR):
+                if got_cls == "Ok":
+                    bad("step reported Ok although its Logic did not finish Ok",
+                        f"reported Ok {outs[l].get('value')!r}, but what was forced on its Logic makes it {want_cls}", s)
+                else:
+                    bad(f"step outcome class is not the one forced on its Logic ({want_cls} expected)",
+                        f"reported {got_cls}, expected {want_cls}", s)
+        not_ok = [r for r in refs if r not in outs or outs[r]["cls"] != "Ok" or truth.get(r, ("Ok",))[0] != "Ok"]
+        if not not_ok and any(r in truth and truth[r][0] == "Ok" and outs[r]["cls"] != "Ok" for r in refs):
+            continue          # a referenced step is mis-reported (flagged there); nothing sound to demand here
         if not_ok:
             # "If any referenced step was skipped, is waiting or failed, the step is reported as a
             #  dependency-skip and its Logic is never evaluated (no API call is made on its behalf)"
             if mine:
                 bad("Logic evaluated although a referenced step is not Ok",
-                    f"references {not_ok} ({[outs.get(r, {}).get('cls') for r in not_ok]}) but Logic was evaluated: "
+                    f"references {not_ok} (reported {[outs.get(r, {}).get('cls') for r in not_ok]}, by what was forced on "
+                    f"them {[truth.get(r, ('?',))[0] for r in not_ok]}) but Logic was evaluated: "
                     f"{[t['tgt'] for t in mine]}", s)
             if my_calls:
                 bad("API call made on behalf of a step whose dependency is not Ok",
